@@ -235,7 +235,12 @@ def run(tier, seed, replay=None):
                 "keys; x shape of the argument (identity, one-box arrow, Box, composite, daggered, "
                 "composite by then, image of another functor). monoidal / rigid Functor and "
                 "cat.Functor(ar_factory=Diagram) with the same disagreements; non-trivial there = "
-                "value of >= 2 boxes from a request of >= 2 operations")
+                "value of >= 2 boxes from a request of >= 2 operations. Across class borders "
+                "(harness/crossfam.py): every ordered pair of the 9 diagram / type classes x tensor, "
+                "n-ary tensor with a third class, composition with a junction rebuilt in the other "
+                "class on the same (name, z) keys, ill-typed composition, x calling form, results "
+                "used again; constructor arguments of the wrong TYPE: every class x 38 offset values "
+                "x position, 14 offset containers, box values / containers, dom / cod values")
     rep.partial = ["parser/translator outputs (eager_parse, from_tk, from_pyzx, circuit2zx, "
                    "tree2diagram) are covered by C13/C16/C17/C18 and the constructor monitor only",
                    "class-specific constructions of the semantic classes (Circuit/zx/tensor cups, "
@@ -254,6 +259,11 @@ def run(tier, seed, replay=None):
                    "images of a functor are well-typed arrows the library built earlier "
                    "(hypothesis ImagesWF of cat_functor_wf / cat_eval_wf; the harness re-checks "
                    "every image with C01's predicate)"]
+    rep.partial.append(
+        "cross-class operations: the model is class-free (keys (name, z)); a refusal of the library "
+        "that comes from a type-class coercion inside a layer (PRO.upgrade on `right @ other.dom`) "
+        "is allowed by the property and counted, not predicted; the coercion itself is modelled at "
+        "type level (TyClass.upgrade) and compared on the end types of every pair")
     rep.assumptions = ["box names/data are generator-chosen tokens (no names that collide with "
                        "the derived names of Swap/Cup/Cap)",
                        "cat.Box data is never a str: Box(name, x, y, data='s') does not return "
@@ -532,6 +542,11 @@ def run(tier, seed, replay=None):
         rep.extra.update(catfam.run_streams(rep, drv, random.Random(rng.getrandbits(64)), tier))
         rep.extra.update(functor_stream(rep, drv, random.Random(rng.getrandbits(64)), tier, fams,
                                         monitor_hits))
+        # ---- across class borders (then / tensor between diagrams of different diagram and type
+        # classes, the coercion of Ty.tensor) and constructor arguments of the wrong TYPE
+        import crossfam
+        rep.extra.update(crossfam.run_streams(rep, drv, random.Random(rng.getrandbits(64)), tier,
+                                              monitor_hits))
     finally:
         uninstall()
         drv.close()
